@@ -207,8 +207,28 @@ def run(ctx):
     from checks import index_ob
     index_ob.index_obligations(ctx, 'C10.index')
     index_ob.register_replayers(ctx, 'C10.index')
+    # premise of monotonicity: what a rule skips because "it is there already" must really be there AT THAT WORLD -- otherwise an added
+    # premise can suppress a step the proof needs (the identity rule's completeness for every order and branch content, C02/C09's obligation)
+    from checks import c01 as _c01, rulesem as _RS
+    for lname in _RS.registry():
+        lg = _RS.registry()(lname); fz = {}
+        for r in _c01.identity_order_obligations(lg, fz, 'C10'):
+            if r.name.endswith('.complete'): ctx.add_result(r)
+        ctx.functions.update(fz)
     bounded_meta(ctx)
     ctx.replayers['C10.'] = lambda r: dict(reproduced=None, detail='see counterexample / meta')
+    ctx.replayers['C10.identity.'] = replay_identity_world
+
+def replay_identity_world(r):
+    "an identity at a non-actual world, with and without a premise that puts the substituted predication at another world"
+    from bounded import prover as P
+    from pytableaux.lang import Argument
+    from checks import rulesem as _RS
+    L = (r.meta or {}).get('logic') or r.name.split('.')[2]
+    lg = _RS.registry()(L)
+    base, more = 'a:MKKImnFmNFn', 'a:MKKImnFmNFn:Fn'
+    o1 = P.outcome(lg, Argument(base))[0]; o2 = P.outcome(lg, Argument(more))[0]
+    return dict(reproduced=(o1 == 'valid' and o2 == 'invalid'), detail=f'{L}: {base} is {o1}; with the extra premise Fn ({more}) it is {o2}')
 
 def replay(payload):
     if payload.get('kind') == 'bounded' and 'history' in (payload.get('input') or {}):
